@@ -27,8 +27,24 @@ TRUSTED = [
     "Python glue: operation generator, canonical result digests (pandas hash_pandas_object), interning of fingerprints into numbers",
 ]
 
+TRUSTED += [
+    "translators/sharedstate.py (Python ast -> inventory of shared locations and write sites + their Gallina text); tied both ways "
+    "to the live package on every run (every static location resolves, every live state-holding object has a static location)",
+    "attribution of an observed write to a source statement: the line event preceding the event at which the change is seen",
+    "cdef globals of the .pyx modules are not Python attributes (cencoding specs/children tables): invisible to the monitor",
+]
+
 BIG = 10 ** 9
 OPC = {"ok": False}
+INV = {"path": None, "inv": None, "idx": None}
+
+
+def inventory():
+    """the static inventory of this run (written by the parent into the scratch directory), loaded once per worker"""
+    if INV["inv"] is None and INV["path"] and os.path.exists(INV["path"]):
+        INV["inv"] = json.load(open(INV["path"]))
+        INV["idx"] = conc.site_index(INV["inv"])
+    return INV["inv"]
 
 
 # ---------------------------------------------------------------------------------------------
@@ -112,7 +128,8 @@ def gen_filters(rng, spec):
     return [[gen_filter1(rng, spec) for _ in range(rng.choice([1, 2]))] for _ in range(2)]
 
 
-KINDS = ["to_pandas"] * 4 + ["slice"] * 2 + ["index", "slice_only", "slice_stats", "iter", "head", "statistics", "count", "columns", "pickle"]
+KINDS = ["to_pandas"] * 4 + ["slice"] * 2 + ["index", "slice_only", "slice_stats", "iter", "head", "statistics", "count", "columns", "pickle", "schema_text",
+                                                "stats_fn", "sorted_cols", "sorted_cols", "filter_rgs", "meta", "copy", "deepcopy"]
 
 
 def gen_op(rng, spec, kind=None):
@@ -120,7 +137,7 @@ def gen_op(rng, spec, kind=None):
     op = {"op": kind}
     cols = list(spec["cols"]) + (["p"] if spec["kind"] == "hive" else []) + list(spec.get("cats", []))
     nrg = n_row_groups(spec)
-    if kind in ("to_pandas", "slice", "index", "iter", "head", "pickle"):
+    if kind in ("to_pandas", "slice", "index", "iter", "head", "pickle", "copy", "deepcopy"):
         if rng.random() < 0.5:
             op["columns"] = sorted(rng.sample(cols, rng.randint(1, len(cols))))
         if rng.random() < 0.5 and (spec["kind"] != "file" or spec["numeric"]):
@@ -137,8 +154,10 @@ def gen_op(rng, spec, kind=None):
         op["i"] = rng.randrange(-nrg, nrg)
     if kind == "head":
         op["n"] = rng.choice([1, 5, 30, spec["n"] + 5])
-    if kind == "count" and rng.random() < 0.7 and (spec["kind"] != "file" or spec["numeric"]):
+    if kind in ("count", "sorted_cols") and rng.random() < 0.7 and (spec["kind"] != "file" or spec["numeric"]):
         op["filters"] = gen_filters(rng, spec)
+    if kind == "filter_rgs":
+        op["filters"] = gen_filters(rng, spec) if (spec["kind"] != "file" or spec["numeric"]) else []
     return op
 
 
@@ -224,6 +243,7 @@ def run(ctx):
         rc, out = C.run(["coqchk", "-o", "-silent", "-Q", os.path.join(C.COQ, "theories"), "Pq", "Pq.Proofs.InterleaveProofs"], timeout=900)
         ctx.obligation("coqchk -o Pq.Proofs.InterleaveProofs: axioms <none>", rc == 0 and "Axioms: <none>" in out, out[-1500:])
         ctx.checker_cmds.append("coqchk -o -silent -Q coq/theories Pq Pq.Proofs.InterleaveProofs")
+    static_inventory(ctx)
     C.use_shadow()
     quick = ctx.quick()
     rng = ctx.rng
@@ -253,9 +273,10 @@ def run(ctx):
     if not os.path.isdir(os.path.join(C.REPO, "test-data")):
         ctx.notes.append("no test-data directory under VERIF_REPO: foreign files skipped")
         names = []
-    base = {"quick": quick, "seed": ctx.seed, "scratch": ctx.scratch}
+    base = {"quick": quick, "seed": ctx.seed, "scratch": ctx.scratch, "inv_path": INV["path"]}
     out = apply_jobs(ctx, [dict(base, phase="build", specs=specs, names=names)], jt)
     built = out[0] if out and out[0] else {"datasets": []}
+    inventory_tie(ctx, built.get("coverage"))
     datasets = [(sp, pa) for sp, pa in built["datasets"]]
     for sp, _ in datasets:
         if sp["kind"] == "file":
@@ -292,14 +313,79 @@ def run(ctx):
         base["broken"] = True
         extra = [dict(base, phase="storm", datasets=[d], share=len(datasets), tag="b%d" % di) for di, d in enumerate(datasets)]
         seen_t = set()
-        for t in fp_state.get("targets", []):
-            key = (t["di"], t["op"]["op"], t["opcodes"])
-            if key in seen_t or len(seen_t) >= 6:
+        covered = fp_state.get("covered", {})
+        site_targets = [t for t in fp_state.get("targets", []) if "site" in t]
+        for s_ in INV.get("static_bad", []) or []:
+            hit = None
+            for ln in range(s_["line"], s_["end_line"] + 1):
+                for (di_, op_, ph_) in covered.get((s_["file"], ln), []):
+                    if ph_.startswith("fresh"):
+                        hit = (di_, op_)
+                        break
+                if hit:
+                    break
+            if hit:
+                site_targets.append({"di": hit[0], "op": hit[1], "site": [s_["file"], s_["line"], s_["end_line"]], "opcodes": False, "pattern": s_["pattern"],
+                                     "key": s_["target"]})
+            else:
+                site_targets.append({"di": 0, "part": True, "site": [s_["file"], s_["line"], s_["end_line"]], "opcodes": False, "pattern": s_["pattern"]})
+        for t in site_targets:
+            t["readers_at"] = readers_of(t.get("key"), t["site"], covered, t["di"])
+        for t in [t for t in fp_state.get("targets", []) if "site" not in t] + site_targets:
+            key = (t["di"], t.get("op", {}).get("op"), t["opcodes"], tuple(t.get("site", ())))
+            if key in seen_t or len(seen_t) >= 8:
                 continue
             seen_t.add(key)
-            extra.append(dict(base, phase="targeted", datasets=[datasets[t["di"]]], target=t, tag="t%d" % len(seen_t)))
+            extra.append(dict(base, phase="targeted" if "site" not in t else "site_search", datasets=[datasets[t["di"]]], target=t,
+                              tag="t%d" % len(seen_t)))
         apply_jobs(ctx, extra, jt)
         lap("search_after_broken_premise")
+
+
+def static_inventory(ctx):
+    """tie 0: the inventory of shared locations and write sites, regenerated from the sources of this run; the static
+    footprint condition is re-proved on the regenerated text (coq/genproofs/GenSharedInvProofs.v)"""
+    from translators import sharedstate
+    res = sharedstate.run(C.REPO, ctx.gen_dir)
+    ctx.extra["translator"] = {"sharedstate": {"status": res["status"], "reason": res.get("reason")}}
+    if res["status"] != "ok":
+        ctx.notes.append("translator_fallback: sharedstate: %s (the monitor falls back to the live enumeration of module/class/default state; "
+                         "write sites are not classified)" % res.get("reason"))
+        return
+    inv = res["inventory"]
+    INV["path"] = os.path.join(ctx.scratch, "inventory.json")
+    json.dump({k: inv[k] for k in ("locations", "sites")}, open(INV["path"], "w"))
+    INV["inv"], INV["idx"] = inv, conc.site_index(inv)
+    ok, out = C.coqc(res["file"], extra_q=[(ctx.gen_dir, "PqGen")])
+    if not ok:
+        ctx.notes.append("translator_fallback: sharedstate: generated file rejected by coqc: %s" % out[-300:])
+        ctx.extra["translator"]["sharedstate"]["status"] = "translator_fallback"
+        return
+    ctx.coq_file(os.path.join(C.COQ, "genproofs", "GenSharedInvProofs.v"), extra_q=[(ctx.gen_dir, "PqGen")])
+    bad = [s_ for s_ in inv["sites"] if not s_["import_time"] and s_["base"] in ("global", "default", "classattr")
+           and s_["pattern"] in ("augmented", "rmw", "set_restore", "multi_store", "delete", "mutcall")]
+    ctx.extra["inventory"] = {"locations": len(inv["locations"]), "sites": len(inv["sites"]),
+                              "sites_on_static_shared_bases": sum(1 for s_ in inv["sites"] if s_["base"] in ("global", "default", "classattr") and not s_["import_time"]),
+                              "patterns": {p_: sum(1 for s_ in inv["sites"] if s_["pattern"] == p_) for p_ in sharedstate.PATTERNS},
+                              "static_offenders": [{k: s_[k] for k in ("file", "line", "func", "pattern", "base", "base_name", "target")} for s_ in bad][:20]}
+    INV["static_bad"] = bad
+
+
+REFUTED_BY = {"augmented": "C20_rmw_refuted / C20_rmw_lost_update_refuted", "rmw": "C20_rmw_refuted", "set_restore": "C20_set_restore_refuted",
+              "multi_store": "C20_publish_update_refuted", "mutcall": "C20_scratch_refuted / C20_rmw_refuted (non-idempotent builtin mutator)",
+              "delete": "removal of a published key (classify: destructive)"}
+
+
+def inventory_tie(ctx, cov):
+    if cov is None:
+        return
+    ctx.extra["inventory_coverage"] = {k: (v if not isinstance(v, list) else v[:20]) for k, v in cov.items()}
+    ctx.obligation("inventory tie: every location of the regenerated inventory resolves in the live package",
+                   not cov["unresolved"], "static locations with no live object: %s" % cov["unresolved"][:10])
+    ctx.obligation("inventory tie: every live state-holding object (module / class / default-argument / function level) has a location "
+                   "in the regenerated inventory", not cov["dynamic_only"], "live objects unknown to the source inventory: %s" % cov["dynamic_only"][:10])
+    ctx.obligation("inventory tie: every shared location is inspectable by the footprint monitor (or of a trusted thread-safe type)",
+                   not cov["opaque"], "objects the fingerprint cannot look into: %s" % cov["opaque"][:10])
 
 
 def _worker_init():
@@ -359,6 +445,7 @@ def _job(job):
     import time
     t0 = time.time()
     rec = Rec(job)
+    INV["path"] = job.get("inv_path") or INV["path"]
     OPC["ok"] = conc.warm_opcodes()
     rec.extra["opcode_tracing"] = OPC["ok"]
     ph = job["phase"]
@@ -374,6 +461,9 @@ def _job(job):
             spec = foreign_dataset(name)
             ds.append((spec, conc.build_dataset(spec, None)))
         value = {"datasets": ds}
+        if inventory() is not None:
+            from fastparquet import writer, api, core, encoding, dataframe, converted_types, schema, util  # noqa (all modules live)
+            value["coverage"] = conc.inventory_coverage(inventory())
     else:
       try:
           datasets = [(sp, pa, Solo(pa, rec, sp)) for sp, pa in job.get("datasets", [])]
@@ -397,6 +487,8 @@ def _job(job):
               stress(rec, datasets, rec.rng, quick, job["r0"], job["r1"])
           elif ph == "targeted":
               targeted_search(rec, datasets, rec.rng, quick, job["target"])
+          elif ph == "site_search":
+              site_search(rec, datasets, rec.rng, quick, job["target"])
           else:
               raise ValueError(ph)
       except Hung as e:
@@ -475,8 +567,9 @@ def fixed_ops(spec):
     ops = [{"op": "to_pandas"}, {"op": "to_pandas", "columns": spec["cols"][:2], "index": False}, {"op": "to_pandas", "columns": spec["cols"][-1:]},
            {"op": "slice", "i": 0, "j": 1}, {"op": "slice_only", "i": 1, "j": None}, {"op": "index", "i": -1}, {"op": "iter"},
            {"op": "head", "n": 3}, {"op": "statistics"}, {"op": "count"}, {"op": "columns"}, {"op": "pickle"},
-           {"op": "slice_stats", "i": 0, "j": 1}]
+           {"op": "slice_stats", "i": 0, "j": 1}, {"op": "schema_text"}, {"op": "sorted_cols"}, {"op": "stats_fn"}, {"op": "meta"}, {"op": "copy"}]
     for c in sorted(spec["numeric"])[:2]:
+        ops[-4] = {"op": "sorted_cols", "filters": [[c, ">=", spec["numeric"][c][1]]]}
         ops[2] = {"op": "to_pandas", "filters": [[c, ">=", spec["numeric"][c][1]]]}
         ops[9] = {"op": "count", "filters": [[c, "<", spec["numeric"][c][1]]]}
         ops[6] = {"op": "iter", "filters": [[c, "!=", spec["numeric"][c][0]]]}
@@ -501,12 +594,23 @@ FIXED_OPS = [
     {"op": "count", "filters": [["t", "<", {"dt": "2020-01-02T03:00"}], ["s", ">=", "r2"]]},
     {"op": "slice", "i": 0, "j": 2, "filters": [["t", ">", {"dt": "2020-01-01T05:00"}]]},
     {"op": "slice_stats", "i": 1, "j": None},
+    {"op": "schema_text"},
+    # the module-level functions taking the handle (statistics use), with and without filters
+    {"op": "sorted_cols", "filters": [["i", ">", 30]]},
+    {"op": "stats_fn"},
+    {"op": "sorted_cols"},
+    {"op": "filter_rgs", "filters": [["f", "<", 40.0], ["i", ">=", 0]]},
+    {"op": "meta"},
+    {"op": "copy", "columns": ["i"]},
+    {"op": "deepcopy", "columns": ["s"], "filters": [["i", "<=", 25]]},
 ]
 
 
 def _fp_job(job):
     """worker process: trace the operations of one job (fresh handle per operation, or one warm handle)"""
     path, phase, ops = job["path"], job["fp_phase"], job["ops"]
+    INV["path"] = job.get("inv_path") or INV["path"]
+    inventory()
     import warnings
     warnings.simplefilter("ignore")
     warnings.showwarning = lambda *a, **k: None
@@ -524,39 +628,53 @@ def _fp_job(job):
             if isinstance(want, list) and want[:2] == ["EXC", "TimeoutError"] and "did not return within" in str(want[2]):
                 raise TimeoutError(want[2])
         except TimeoutError as e:
-            out.append((op, ["EXC", "TimeoutError", "alone: " + str(e)], [("start", {})], 0, 0, None))
+            out.append((op, ["EXC", "TimeoutError", "alone: " + str(e)], [("start", {})], 0, 0, None, [], []))
             break
+        cover = set()
         try:
             res, changes, nlines, scr = with_alarm((600 if not job["quick"] else 180) if opc else 120,
-                                                   conc.trace_footprint, pf, op, None, None, conc.FULL_EVERY, opc)
+                                                   conc.trace_footprint, pf, op, None, None, conc.FULL_EVERY, opc, cover)
         except TimeoutError:
             # the operation returns when run alone (just checked): the monitor was too slow on this machine right now
             notes.append("footprint of %s (%s) not taken: the traced run exceeded its time budget" % (okey(op), phase))
             continue
-        out.append((op, conc.canon(res), changes, nlines, scr, want))
+        if conc.is_exc(res) and res[1] == "TimeoutError" and "did not return within" in str(res[2]):
+            # (the alarm went off inside the operation: it returns when run alone - just checked - the traced run was too slow)
+            notes.append("footprint of %s (%s) not taken: the traced run exceeded its time budget" % (okey(op), phase))
+            continue
+        evs = [(k_, o_, n_, p_, (st["file"], st["line"], st["end_line"], st["func"]) if st else conc.tag_prev(changes[-1][0]))
+               for k_, o_, n_, p_, st in conc.trace_events(changes, INV["idx"] or {})] if INV["idx"] is not None else []
+        out.append((op, conc.canon(res), changes, nlines, scr, want, evs, sorted(cover)))
     return {"calls": [], "extra": {"footprints_skipped_slow": len(notes)}, "notes": notes, "value": out}
 
 
 def footprint_jobs(ctx, datasets, rng, quick):
     jobs, owner = [], []
     sels = {}
-    mk = lambda path, ph, ops: {"phase": "footprint", "path": path, "fp_phase": ph, "ops": ops, "quick": quick, "seed": ctx.seed}
+    mk = lambda path, ph, ops: {"phase": "footprint", "path": path, "fp_phase": ph, "ops": ops, "quick": quick, "seed": ctx.seed,
+                                "inv_path": INV["path"]}
     for di, (spec, path) in enumerate(datasets):
         ops = fixed_ops(spec)
         ops += [gen_op(rng, spec) for _ in range(2 if quick else 6)]
-        for i in range(0, len(ops), 3):
-            jobs.append(mk(path, "fresh", ops[i:i + 3]))
+        fresh_ops = ops if (di == 0 or not quick) else [o for o in ops if o["op"] not in ("stats_fn", "meta", "filter_rgs", "deepcopy") and o != {"op": "sorted_cols"}]
+        for i in range(0, len(fresh_ops), 3):
+            jobs.append(mk(path, "fresh", fresh_ops[i:i + 3]))
             owner.append(di)
-        wsel = (ops[1:3] + ops[3:4] + ops[8:10] + ops[11:14]) if quick else ops
-        sels[di] = wsel
-        half = (len(wsel) + 1) // 2           # two warm handles per dataset (shorter critical path)
-        for part in (wsel[:half], wsel[half:]):
+        # two warm handles per dataset (shorter critical path).  The second one exercises the statistics family in an order
+        # that exposes aliasing between a handle, its cache and handles derived from it: statistics first (cache filled), then
+        # derived-handle statistics, the module-level functions with and without filters, statistics again
+        fam = [o for o in ops if o["op"] == "statistics"][:1] + \
+              [o for o in ops if o["op"] in ("slice_stats", "sorted_cols", "stats_fn", "meta", "schema_text")] + \
+              [o for o in ops if o["op"] == "statistics"][:1]
+        first = (ops[1:3] + ops[3:4] + ops[9:10] + ops[11:14]) if quick else [o for o in ops if o not in fam]
+        sels[di] = first + fam
+        for part in (first, fam):
             if part:
                 jobs.append(mk(path, "warm", part))
                 owner.append(di)
         # the same premise at bytecode granularity (every instruction of fastparquet frames) for the short operations,
         # in the thorough tier for all
-        short = [o for o in ops if o["op"] in ("slice_only", "count", "statistics", "columns", "head")]
+        short = [o for o in ops if o["op"] in ("slice_only", "count", "statistics", "columns", "head", "schema_text", "sorted_cols", "meta")]
         osel = (short[:3] + short[-2:]) if (quick or spec["kind"] == "file") else (short + [o for o in ops if o["op"] in ("slice", "pickle", "index")][:4] + ops[1:3])
         for i in range(0, len(osel), 3):
             jobs.append(mk(path, "fresh-opcode", osel[i:i + 3]))
@@ -569,14 +687,19 @@ def footprint_premise(ctx, pq, datasets, jobs, results, state):
     parent handle must be a memo add, and all traces must agree on one value per key"""
     owner, sels = state["owner"], state["sels"]
     targets = state.setdefault("targets", [])
+    covered = state.setdefault("covered", {})
     for di, (spec, path) in enumerate(datasets):
         inter = conc.Interner()
         traces, metas = [], []
+        all_events = []
         for job, res_list, own in zip(jobs, results, owner):
             if own != di or res_list is None:
                 continue
             phase = job["fp_phase"]
-            for op, got, changes, nlines, scr, want in res_list:
+            for ri, (op, got, changes, nlines, scr, want, evs, cover) in enumerate(res_list):
+                all_events.append((phase, op, evs))
+                for fl in cover:
+                    covered.setdefault(tuple(fl), []).append((di, op, phase))
                 kinds = conc.classify_trace(changes)
                 case = {"footprint": phase, "dataset": spec, "op": op}
                 ctx.case(case)
@@ -594,7 +717,7 @@ def footprint_premise(ctx, pq, datasets, jobs, results, state):
                 if got != want:
                     sel = job["ops"]
                     ctx.fail({"component": "shared-handle", "op": op["op"], "symptom": symptom(got), "mode": "sequential-" + phase},
-                             {"mode": "sequence", "dataset": spec, "ops": [o for o in sel[:sel.index(op) + 1]] if phase == "warm" else [op]},
+                             {"mode": "sequence", "dataset": spec, "ops": [r_[0] for r_ in res_list[:ri + 1]] if phase == "warm" else [op]},
                              "result on a %s handle differs from the solo result: %r vs %r" % (phase, got, want))
         # bounded input for the extracted checker: a trace is cut after its first destructive transition (as classified
         # in Python - the correspondence below compares exactly that index) and after 200 snapshots
@@ -627,6 +750,7 @@ def footprint_premise(ctx, pq, datasets, jobs, results, state):
                 ctx.obligation(name, True)
         ctx.obligation("footprint premise [ds%d]: one value per key over all traces (memo values are functions of immutable data)" % di,
                        bool(merged), "two snapshots disagree on the value of a key")
+        footprint_events(ctx, di, all_events, targets)
         ctx.extra.setdefault("memo_keys_written", [])
         seen = set(ctx.extra["memo_keys_written"])
         for case, kinds, _ in metas:
@@ -634,6 +758,53 @@ def footprint_premise(ctx, pq, datasets, jobs, results, state):
                 for k in t[2]["added"]:
                     seen.add(conc_generic_key(k))
         ctx.extra["memo_keys_written"] = sorted(seen)[:60]
+
+
+def footprint_events(ctx, di, all_events, targets):
+    """the decidable footprint condition of Conc/Footprint.v (extracted: conc_footprint_check) on the write events observed
+    for this dataset over all traces: every write of every location is an idempotent publication (absent -> value, or the
+    same value again), one value per location, and no write sits at a site of a refuted pattern"""
+    if INV["idx"] is None:
+        return
+    keys, vals = {}, {}
+    flat, meta = [], []
+    for phase, op, evs in all_events:
+        for k_, o_, n_, p_, site in evs:
+            flat.append([keys.setdefault(k_, len(keys)), [] if o_ is None else [vals.setdefault(o_, len(vals))],
+                         [] if n_ is None else [vals.setdefault(n_, len(vals))], conc.PATTERN_CODE[p_]])
+            meta.append((phase, op, k_, o_, n_, p_, site))
+    ctx.count("footprint.events", min(len(flat) // 100 * 100, 5000))
+    sites_seen = ctx.extra.setdefault("observed_write_sites", {})
+    for m in meta:
+        if m[6] is not None:
+            key = "%s:%s %s" % (m[6][0], m[6][1], m[5])
+            sites_seen[key] = sites_seen.get(key, 0) + 1
+    out = pq_once(("conc_footprint_check", flat), 300) if flat else [1, []]
+    if out is None:
+        ctx.obligation("footprint condition [ds%d]: extracted checker answered" % di, False, "pqref conc_footprint_check timed out or died")
+        return
+    ok_model = bool(out[0])
+    # the same condition evaluated in Python (model vs harness view of the same events)
+    table, py_bad = {}, None
+    for i, (phase, op, k_, o_, n_, p_, site) in enumerate(meta):
+        good = n_ is not None and (o_ is None or o_ == n_) and p_ not in REFUTED_BY
+        if good and table.setdefault(k_, n_) != n_:
+            good = False
+        if not good:
+            py_bad = i
+            break
+    ctx.correspondence("footprint_ok (extracted) ~ python evaluation of the footprint condition", {"dataset": di, "events": len(flat)},
+                       None if not out[1] else int(out[1][0][0]), py_bad)
+    detail = ""
+    if not ok_model and out[1]:
+        i = int(out[1][0][0])
+        phase, op, k_, o_, n_, p_, site = meta[i]
+        detail = "event %d: location %s: %r -> %r during %s (%s) at %s, pattern %s%s" % (
+            i, k_, o_, n_, okey(op), phase, site, p_, (" - refuted by " + REFUTED_BY[p_]) if p_ in REFUTED_BY else "")
+        if site is not None and len(site) == 4 and phase.startswith("fresh"):
+            targets.append({"di": di, "op": op, "site": list(site[:3]), "opcodes": phase.endswith("opcode"), "pattern": p_, "key": k_})
+    ctx.obligation("footprint condition [ds%d]: every observed write of every inventory location is an idempotent publication at a "
+                   "site of a non-refuted pattern (extracted footprint_ok, %d events)" % (di, len(flat)), ok_model, detail)
 
 
 def pq_once(cmd, timeout):
@@ -746,8 +917,30 @@ def check_pair(ctx, spec, path, solo, ops, plan, what, opcodes=False):
     return failed
 
 
+class Clock:
+    """wall-clock cap of one phase job (a loaded machine must not turn a long job into a 'hang' report): the case counts
+    are fixed, the cap only cuts them short; what was cut is recorded in the evidence"""
+
+    def __init__(self, ctx, name, seconds):
+        import time
+        self.t0, self.cap, self.ctx, self.name = time.time(), seconds, ctx, name
+
+    def over(self):
+        import time
+        if time.time() - self.t0 > self.cap:
+            self.ctx.extra.setdefault("phase_time_cap_reached", [])
+            if self.name not in self.ctx.extra["phase_time_cap_reached"]:
+                self.ctx.extra["phase_time_cap_reached"].append(self.name)
+            return True
+        return False
+
+
 def forced_search(ctx, datasets, rng, quick, budget=None):
     per_ds = budget if budget is not None else (60 if quick else 600) // len(datasets)
+    clock = Clock(ctx, "forced", 70 if quick else 1200)
+
+    def cp(*a_):
+        return False if clock.over() else check_pair(*a_)
     for spec, path, solo in datasets:
         pool = fixed_ops(spec) + [gen_op(rng, spec) for _ in range(6 if quick else 30)]
         wp = {}
@@ -755,11 +948,12 @@ def forced_search(ctx, datasets, rng, quick, budget=None):
         # writers first: operations that write shared state, preempted right after each write
         cand = []
         for a in pool:
-            if a["op"] in ("to_pandas", "iter", "head", "slice", "count", "statistics", "pickle", "index", "slice_only", "slice_stats"):
+            if a["op"] in ("to_pandas", "iter", "head", "slice", "count", "statistics", "pickle", "index", "slice_only", "slice_stats",
+                           "sorted_cols", "stats_fn", "filter_rgs", "meta", "schema_text", "copy", "deepcopy"):
                 cand.append(a)
         rng.shuffle(cand)
         for a in cand:
-            if done >= per_ds:
+            if done >= per_ds or clock.over():
                 break
             if okey(a) not in wp:
                 solo(a)               # (an operation that does not return alone ends the job here)
@@ -771,11 +965,13 @@ def forced_search(ctx, datasets, rng, quick, budget=None):
             if len(ks) > 4:
                 ks = [0, 1] + sorted(rng.sample(ks[2:], 2))
             for k in ks:
-                check_pair(ctx, spec, path, solo, [a, b], [[0, k, "writes"], [1, BIG, "lines"]], "after-write-%s" % ("0" if k == 0 else "k"), opc and k > 0)
+                if clock.over():
+                    break
+                cp(ctx, spec, path, solo, [a, b], [[0, k, "writes"], [1, BIG, "lines"]], "after-write-%s" % ("0" if k == 0 else "k"), opc and k > 0)
                 done += 1
                 if k > 0:
                     # read side of the discipline: the same operation (reader of the very keys a writes) right after a's k-th write
-                    check_pair(ctx, spec, path, solo, [a, a], [[0, k, "writes"], [1, BIG, "lines"]], "after-write-k-same-op", opc)
+                    cp(ctx, spec, path, solo, [a, a], [[0, k, "writes"], [1, BIG, "lines"]], "after-write-k-same-op", opc)
                     done += 1
             # both threads in the middle of their shared writes: a after its k-th write, a second writer until its j-th, a finishes
             if nw > 0:
@@ -783,12 +979,12 @@ def forced_search(ctx, datasets, rng, quick, budget=None):
                 nw2 = wp[okey(b2)][0] if okey(b2) in wp else nw
                 k = rng.randrange(1, nw + 1)
                 j = rng.randrange(1, max(1, nw2) + 1)
-                check_pair(ctx, spec, path, solo, [a, b2], [[0, k, "writes"], [1, j, "writes"], [0, BIG, "lines"], [1, BIG, "lines"]], "double-after-write", opc)
+                cp(ctx, spec, path, solo, [a, b2], [[0, k, "writes"], [1, j, "writes"], [0, BIG, "lines"], [1, BIG, "lines"]], "double-after-write", opc)
                 done += 1
             # a preemption at an arbitrary line (instruction) of a
             if nl > 2:
                 k = rng.randrange(1, nl * (4 if opc else 1))
-                check_pair(ctx, spec, path, solo, [a, b], [[0, k, "lines"], [1, BIG, "lines"]], "at-line", opc)
+                cp(ctx, spec, path, solo, [a, b], [[0, k, "lines"], [1, BIG, "lines"]], "at-line", opc)
                 done += 1
 
 
@@ -822,11 +1018,90 @@ def targeted_search(ctx, datasets, rng, quick, target):
     ctx.extra["targeted_runs"] = ctx.extra.get("targeted_runs", 0) + runs
 
 
+def readers_of(key, site, covered, di):
+    """statements of the package that mention the attribute / dict key a location is named by, executed by some traced operation
+    of this dataset: [(file, line, op)] - where a victim of a write to that location can be standing"""
+    import re
+    if not key:
+        return []
+    toks = [t for t in re.split(r"[^A-Za-z0-9_]+", str(key)) if t and not t.isdigit() and t not in ("self", "module", "fmd", "class")]
+    if not toks:
+        return []
+    attr = toks[-1]
+    out = []
+    pkg = os.path.join(C.REPO, "fastparquet")
+    for fn in sorted(os.listdir(pkg)):
+        if not fn.endswith(".py"):
+            continue
+        for ln, text in enumerate(open(os.path.join(pkg, fn)).read().split("\n"), 1):
+            if re.search(r"(\.|['\"])%s\b" % re.escape(attr), text) and not (fn == site[0] and site[1] <= ln <= site[2]):
+                for (di_, op_, ph_) in covered.get((fn, ln), []):
+                    if di_ == di and ph_.startswith("fresh"):
+                        out.append([fn, ln, op_])
+                        break
+    return out[:10]
+
+
+def site_search(ctx, datasets, rng, quick, target):
+    """A write site (file, line) follows a refuted pattern, or a write observed there is not an idempotent publication.
+    Look for the victim with the witness interleavings of the refuted theorems: thread A is preempted right after it LEFT
+    the statement (its n-th execution) or INSIDE it (after its j-th bytecode instruction); B - the same operation, then
+    readers - runs completely in the gap; then A finishes."""
+    file, line, end = target["site"]
+    if target.get("part"):
+        spec = gen_dataset(rng, "single", small=True)
+        spec["nthreads"] = 2
+        plans = [([[0, n, "left", file, line], [1, BIG, "lines"]], False) for n in (1, 2, 3, 5)]
+        plans += [([[0, j, "in", file, line], [1, BIG, "lines"]], True) for j in (1, 2, 3, 5, 8, 12)]
+        plans += [([[0, n, "left", file, line], [1, m, "left", file, line], [0, BIG, "lines"], [1, BIG, "lines"]], False) for n in (1, 2) for m in (1, 2)]
+        res = part_round(spec, ctx.scratch, "site%s%d" % (file.replace(".", "_"), line), rng, trace=True, extra_plans=plans)
+        ctx.case({"mode": "part", "dataset": spec, "site": target["site"]})
+        ctx.count("forced.kind", "site-part")
+        if res["bad"]:
+            ctx.fail({"component": "part-writer", "op": "part", "symptom": res["bad"][0][1], "mode": res["bad"][0][0]},
+                     {"mode": "part", "dataset": spec, "bad": res["bad"][:3], "site": target["site"]},
+                     "part files written from threads differ from the sequential ones (writer preempted at %s:%d): %r" % (file, line, res["bad"][:2]))
+        return
+    spec, path, solo = datasets[0]
+    a = target["op"]
+    first = spec["cols"][0] if spec.get("cols") else None
+    readers = [a, {"op": "schema_text"}, {"op": "columns"}, {"op": "statistics"},
+               {"op": "to_pandas", "columns": [first]} if first else {"op": "to_pandas"}, {"op": "count"}]
+    runs = 0
+    # two specific preemptions: the reader B stands right BEFORE / right AFTER a statement that uses the location, then the
+    # writer A runs until it is inside (or has just left) the offending statement, then B finishes, then A
+    for fn_b, ln_b, b in target.get("readers_at", []):
+        plans = []
+        for unit_b in ("in", "left"):
+            plans += [([[1, 1, unit_b, fn_b, ln_b], [0, n, "left", file, line], [1, BIG, "lines"], [0, BIG, "lines"]], False) for n in (1, 2)]
+            if OPC["ok"]:
+                plans += [([[1, 1, unit_b, fn_b, ln_b], [0, j, "in", file, line], [1, BIG, "lines"], [0, BIG, "lines"]], [True, False])
+                          for j in (1, 2, 3, 4, 5, 6, 8, 10, 12, 16, 20)]
+        for plan, opc in plans:
+            runs += 1
+            if check_pair(ctx, spec, path, solo, [a, b], plan, "site-double", opc):
+                ctx.extra["site_search_runs"] = ctx.extra.get("site_search_runs", 0) + runs
+                return
+    for b in readers:
+        plans = [([[0, n, "left", file, line], [1, BIG, "lines"]], False) for n in (1, 2, 3)]
+        if OPC["ok"]:
+            plans += [([[0, j, "in", file, line], [1, BIG, "lines"]], [True, False]) for j in (1, 2, 3, 4, 6, 8, 12, 16)]
+        for plan, opc in plans:
+            runs += 1
+            if check_pair(ctx, spec, path, solo, [a, b], plan, "site", opc):
+                ctx.extra["site_search_runs"] = ctx.extra.get("site_search_runs", 0) + runs
+                return
+    ctx.extra["site_search_runs"] = ctx.extra.get("site_search_runs", 0) + runs
+
+
 def multi_switch(ctx, datasets, rng, quick):
     """2-3 threads, random plans with many switches at line granularity (both directions)"""
     from fastparquet import ParquetFile
     n = 10 if quick else 60
+    clock = Clock(ctx, "multi_switch", 60 if quick else 1200)
     for r in range(n):
+        if clock.over():
+            break
         spec, path, solo = datasets[r % len(datasets)]
         nt = rng.choice([2, 2, 3])
         ops = [gen_op(rng, spec) for _ in range(nt)]
@@ -891,24 +1166,36 @@ def storm_search(ctx, datasets, rng, quick, share=None):
     npairs = 16 if quick else 48
     max_calls = 500 if quick else 1500
     broken = bool(ctx.broken)
+    clock = Clock(ctx, "storm", 70 if quick else 1200)
     if broken:
         npairs, max_calls = (24, 2500) if quick else (96, 8000)
     for n_, (spec, path, solo) in enumerate(datasets):
         writers = [{"op": "count", "filters": [["t", ">", {"dt": "2020-01-01T07:00"}]]}, {"op": "statistics"}, {"op": "slice_only", "i": 0, "j": 1},
                    {"op": "head", "n": 3, "columns": ["i"]}, {"op": "to_pandas", "columns": ["f"], "filters": [["f", ">", 5.0]]},
-                   {"op": "index", "i": 0, "columns": ["i"]}]
-        readers = [{"op": "columns"}, {"op": "to_pandas"}, {"op": "statistics"}, {"op": "count", "filters": [["t", "<=", {"dt": "2020-01-02T01:00"}]]},
+                   {"op": "index", "i": 0, "columns": ["i"]}, {"op": "sorted_cols", "filters": [["i", ">", 10]]}, {"op": "schema_text"},
+                   {"op": "copy", "columns": ["i"]}]
+        readers = [{"op": "sorted_cols"}, {"op": "columns"}, {"op": "to_pandas"}, {"op": "statistics"}, {"op": "count", "filters": [["t", "<=", {"dt": "2020-01-02T01:00"}]]},
                    {"op": "pickle"}, {"op": "head", "n": 4}, {"op": "iter", "columns": ["i", "s"]},
                    {"op": "to_pandas", "columns": ["s", "i"], "filters": [["i", "<=", spec.get("offsets", [0, 1])[1]]]}]
         if spec["kind"] == "file":
             fo = fixed_ops(spec)
-            writers = [fo[4], fo[8], fo[9], fo[7], fo[5], fo[2]]
-            readers = [fo[10], fo[0], fo[8], fo[9], fo[11], fo[7], fo[6], fo[1]]
+            writers = [fo[4], fo[8], fo[9], fo[7], fo[5], fo[2], fo[-4], fo[-5], fo[-1]]
+            readers = [fo[-4], fo[10], fo[0], fo[8], fo[9], fo[11], fo[7], fo[6], fo[1]]
         pairs = [(a, b) for a in writers for b in readers]
         rng.shuffle(pairs)
-        # the cheap derived-handle operation against the small readers always
-        pairs = [(writers[2], readers[0]), (writers[0], readers[3])] + pairs
-        for pi, (a, b) in enumerate(pairs[:max(2, npairs // (share or len(datasets)))]):
+        # the cheap derived-handle operation against the small readers always; statistics use through the module-level
+        # functions; two reads of different columns (per-call file handles: one shared file position would mix them up)
+        cols_ = [c for c in spec.get("cols", []) if c in ("i", "f", "s")] or list(spec.get("cols", []))
+        two_reads = ({"op": "to_pandas", "columns": cols_[:1]}, {"op": "to_pandas", "columns": cols_[1:2] or cols_[:1]})
+        always = [(writers[2], readers[1]), (writers[0], readers[4])]
+        if spec["kind"] != "file":
+            always += [(writers[6], {"op": "statistics"}), two_reads]
+        else:
+            always += [two_reads]
+        pairs = always + pairs
+        for pi, (a, b) in enumerate(pairs[:max(len(always), npairs // (share or len(datasets)))]):
+            if clock.over():
+                break
             opc = OPC["ok"] and (pi % 2 == 0)
             wb = solo(b)          # (an operation that does not return alone ends the job here)
             try:
@@ -922,7 +1209,10 @@ def storm_search(ctx, datasets, rng, quick, share=None):
 def stress(ctx, datasets, rng, quick, r0=0, r1=None):
     from fastparquet import ParquetFile
     rounds = 32 if quick else 160
+    clock = Clock(ctx, "stress", 80 if quick else 1500)
     for r in range(r0, rounds if r1 is None else r1):
+        if clock.over():
+            break
         spec, path, solo = datasets[r % len(datasets)]
         nt = [2, 3, 4, 8, 16, 2, 6, 12][r % 8] if r >= 2 else [2, 16][r]
         same = (r % 7 == 6)
@@ -932,7 +1222,7 @@ def stress(ctx, datasets, rng, quick, r0=0, r1=None):
         else:
             lists = [[gen_op(rng, spec) for _ in range(rng.choice([1, 2, 3]))] for _ in range(nt)]
             # make sure derived handles and filtered reads meet plain reads in every round
-            lists[0][0] = gen_op(rng, spec, rng.choice(["slice", "iter", "head", "index"]))
+            lists[0][0] = gen_op(rng, spec, rng.choice(["slice", "iter", "head", "index", "copy"]))
             lists[1][0] = gen_op(rng, spec, "to_pandas")
             if "t" in spec.get("cols", []) and spec["kind"] != "file":
                 h = rng.randrange(1, max(2, spec["n"]))
@@ -1022,7 +1312,10 @@ def part_writers(ctx, pq, rng, quick):
     import numpy as np
     from fastparquet import writer
     rounds = 8 if quick else 30
+    clock = Clock(ctx, "part_writers", 90 if quick else 1500)
     for r in range(rounds):
+        if clock.over():
+            break
         spec = gen_dataset(rng, "single", small=True)
         spec["nthreads"] = [2, 4, 8, 16, 3][r % 5]
         case = {"mode": "part", "dataset": spec}
@@ -1030,20 +1323,35 @@ def part_writers(ctx, pq, rng, quick):
         ctx.case(case)
         ctx.count("part.threads", spec["nthreads"])
         if res["trace"] is not None:
-            inter = conc.Interner()
-            traces = [[inter.snap(fp) for _, fp in ch] for ch in res["trace"]]
-            out = pq.call("conc_trace_check", traces)
-            nchanges = sum(len(t) - 1 for t in traces)
+            # premise of C20_footprint_confluence for writer threads: the shared schema / metadata object is Frozen (no write at
+            # all); module-, class-, default-argument- and function-level state of the package (regenerated inventory) is Frozen
+            # or Idem (only idempotent publications, at sites of non-refuted patterns); everything else a writer touches is its own
+            inventory()
+            evs = []
+            for ch in res["trace"]:
+                evs += conc.trace_events(ch, INV["idx"] or {})
+            on_shared = [e for e in evs if not e[0].startswith("/@module/")]
+            on_module = [e for e in evs if e[0].startswith("/@module/")]
             ctx.obligation("ownership premise [part writers, round %d]: make_part_file performs no write on the shared schema/metadata" % r,
-                           nchanges == 0 and bool(out[0]),
+                           not on_shared,
                            "shared file metadata changed during make_part_file: %s" % json.dumps(
-                               [conc.classify_trace(ch) for ch in res["trace"] if len(ch) > 1][:1])[:600])
+                               [[e[0], e[1], e[2], e[3], (e[4] or {}).get("line") if isinstance(e[4], dict) else None] for e in on_shared[:4]])[:600])
+            keys, vals = {}, {}
+            flat = [[keys.setdefault(k_, len(keys)), [] if o_ is None else [vals.setdefault(o_, len(vals))],
+                     [] if n_ is None else [vals.setdefault(n_, len(vals))], conc.PATTERN_CODE[p_]] for k_, o_, n_, p_, st in on_module]
+            out = pq.call("conc_footprint_check", flat) if flat else [1, []]
+            bad_ev = on_module[int(out[1][0][0])] if (out and out[1]) else None
+            ctx.obligation("ownership premise [part writers, round %d]: module-/class-/default-level state is frozen or written idempotently "
+                           "(extracted footprint_ok, %d events)" % (r, len(flat)), bool(out and out[0]),
+                           "" if bad_ev is None else "location %s: %r -> %r at %s (pattern %s)" % (
+                               bad_ev[0], bad_ev[1], bad_ev[2],
+                               ("%s:%s" % (bad_ev[4]["file"], bad_ev[4]["line"])) if bad_ev[4] else "?", bad_ev[3]))
         if res["bad"]:
             ctx.fail({"component": "part-writer", "op": "part", "symptom": res["bad"][0][1], "mode": res["bad"][0][0]},
                      dict(case, bad=res["bad"][:3]), "part files written from threads differ from the sequential ones: %r" % (res["bad"][:3],))
 
 
-def part_round(spec, scratch, tag, rng, trace=False, reps=1):
+def part_round(spec, scratch, tag, rng, trace=False, reps=1, extra_plans=None):
     import numpy as np
     from fastparquet import writer
     df = conc.build_frame(spec)
@@ -1088,11 +1396,12 @@ def part_round(spec, scratch, tag, rng, trace=False, reps=1):
                   for k in range(1, min(nw, 3) + 1) for j in range(1, min(nw, 3) + 1)]
         plans += [[[0, rng.randrange(1, max(2, nl)), "lines"], [1, 10 ** 9, "lines"]] for _ in range(2)]
         plans.append([[0, max(1, nl - rng.randrange(1, 12)), "lines"], [1, 10 ** 9, "lines"]])
-        for pi, plan in enumerate(plans):
+        plans = [(p_, False) for p_ in plans] + list(extra_plans or [])
+        for pi, (plan, popc) in enumerate(plans):
             a, b = rng.sample(range(nt), 2)
             shf = dict(shared, paths=paths("forced%d" % pi))
             res, steps, dead = conc.forced_run(None, [{"op": "part", "i": a}, {"op": "part", "i": b}], [list(p) for p in plan], shared=shf, root=fmd,
-                                               timeout=90.0)
+                                               timeout=90.0, opcodes=popc)
             if dead:
                 e_, l_, h_ = conc.stress_run(None, [[{"op": "part", "i": a}], [{"op": "part", "i": b}]], rng, shared=shf, switch=0.005, deadline_s=240.0)
                 if not h_:
